@@ -12,6 +12,7 @@ A Python generator function becomes a Gallina expression of type [list res] (res
     S1 ; S2                        ->  S1 ++ S2
     X.is_false / X.is_true         ->  snd X / negb (snd X)
     X.bindings                     ->  fst X
+    filter(lambda v: P, CALL)      ->  filter (fun v => P) CALL
     OperationResult(B, F, self)    ->  (B, F)
     self.left._evaluate__(S, parent=self)  ->  evl S      (right: evr, _child_: evc)
 
@@ -86,6 +87,17 @@ class Tr:
                     self.refuse(e, "method call")
                 owner = {"AND": "AND", "OR": "OR", "Union": "OR", "ElseIf": "OR"}[self.cls]
                 return f"({owner}_{f.split('.')[1]} {self.expr(e.args[0], env)})"
+            if f == "filter":
+                # filter(lambda v: <boolean over v>, <results>)  ->  filter (fun v : res => ..) (..)
+                if len(e.args) != 2 or e.keywords or not isinstance(e.args[0], ast.Lambda):
+                    self.refuse(e, "filter call")
+                lam = e.args[0]
+                la = lam.args
+                if len(la.args) != 1 or la.vararg or la.kwarg or la.kwonlyargs or la.defaults or la.posonlyargs:
+                    self.refuse(e, "filter predicate")
+                v = la.args[0].arg
+                pred = self.expr(lam.body, dict(env, **{v: v}))
+                return f"(filter (fun {v} : res => {pred}) {self.expr(e.args[1], env)})"
             self.refuse(e, "call")
         self.refuse(e, "expression")
 
